@@ -1220,6 +1220,27 @@ pub fn sweep_bitsets(u: &[u32], amasks: &[u32], bmasks: &[u32], par: bool, cap: 
             if !and.is_empty() && and.len() < av.len() && and.len() < bv.len() {
                 stats.nontrivial += 1;
             }
+            // the same bit set held as a world resource and joined through the resource wrappers
+            let mut rw = World::empty();
+            rw.insert(a.clone());
+            let res_fetch = rw.fetch::<BitSet>();
+            let res_read: specs::shred::Read<BitSet> = rw.system_data();
+            let res_expect: specs::shred::ReadExpect<BitSet> = rw.system_data();
+            if !par {
+                let got: Vec<Row> = (&res_fetch, &b).join().map(|(i, j)| (i, Obs::Idx(j))).collect();
+                chk!(fails, "bitset", "(&Fetch<BitSet>,&b).join", av, bv, got, idx(&and));
+                let got: Vec<Row> = (&b, &res_read).join().map(|(i, j)| (i, Obs::Idx(j))).collect();
+                chk!(fails, "bitset", "(&b,&Read<BitSet>).join", av, bv, got, idx(&and));
+                let got: Vec<Row> = (&res_expect, &b).join().map(|(i, j)| (i, Obs::Idx(j))).collect();
+                chk!(fails, "bitset", "(&ReadExpect<BitSet>,&b).join", av, bv, got, idx(&and));
+                let mut got = vec![];
+                let mut it = (&res_read, &b).lend_join();
+                while let Some((i, j)) = it.next() {
+                    got.push((i, Obs::Idx(j)));
+                }
+                chk!(fails, "bitset", "(&Read<BitSet>,&b).lend_join", av, bv, got, idx(&and));
+                stats.joins += 4;
+            }
             if !par {
                 let got: Vec<Row> = (&a, &b).join().map(|(i, j)| (i, Obs::Idx(j))).collect();
                 chk!(fails, "bitset", "(&a,&b).join", av, bv, got, idx(&and));
@@ -1292,6 +1313,9 @@ pub fn sweep_bitsets(u: &[u32], amasks: &[u32], bmasks: &[u32], par: bool, cap: 
                     }};
                 }
                 drive!("(&a,&b).par_join", (&a, &b), idx(&and), |it| (it.0, Obs::Idx(it.1)));
+                drive!("(&Read<BitSet>,&b).par_join", (&res_read, &b), idx(&and), |it| (it.0, Obs::Idx(it.1)));
+                drive!("(&b,&Fetch<BitSet>).par_join", (&b, &res_fetch), idx(&and), |it| (it.0, Obs::Idx(it.1)));
+                drive!("(&ReadExpect<BitSet>,&b).par_join", (&res_expect, &b), idx(&and), |it| (it.0, Obs::Idx(it.1)));
                 drive!("BitSetOr(&a,&b).par_join", BitSetOr(&a, &b), idx(&or), |it| (it, Obs::Idx(it)));
                 drive!("BitSetXor(&a,&b).par_join", BitSetXor(&a, &b), idx(&xor), |it| (it, Obs::Idx(it)));
                 drive!("(BitSetNot(&a),&b).par_join", (BitSetNot(&a), &b), idx(&b_not_a), |it| (it.0, Obs::Idx(it.1)));
@@ -1584,6 +1608,29 @@ pub fn sweep_changeset(max_len: usize, idxs: &[u32], universe: &[u32]) -> (Stats
                     stats.joins += 1;
                 }
                 stats.joins += 3;
+                // the set held as a world resource and joined through the resource wrappers
+                let cs = {
+                    let mut rw = World::empty();
+                    rw.insert(cs);
+                    {
+                        let rd: specs::shred::ReadExpect<ChangeSet<Cat>> = rw.system_data();
+                        let got: Vec<(u32, String)> = (&ents, &rd).join().map(|(e, c)| (e.id(), c.s.clone())).collect();
+                        chk!(fails, "changeset", format!("{} (&entities,&ReadExpect<ChangeSet>).join", mode), seq_ids, Vec::<u32>::new(), got, want.clone());
+                    }
+                    {
+                        let mut wr: specs::shred::WriteExpect<ChangeSet<Cat>> = rw.system_data();
+                        let got: Vec<(u32, String)> = (&ents, &mut wr).join().map(|(e, c)| (e.id(), c.s.clone())).collect();
+                        chk!(fails, "changeset", format!("{} (&entities,&mut WriteExpect<ChangeSet>).join", mode), seq_ids, Vec::<u32>::new(), got, want.clone());
+                        let mut got = vec![];
+                        let mut it = (&ents, &mut wr).lend_join();
+                        while let Some((e, c)) = it.next() {
+                            got.push((e.id(), c.s.clone()));
+                        }
+                        chk!(fails, "changeset", format!("{} (&entities,&mut WriteExpect<ChangeSet>).lend_join", mode), seq_ids, Vec::<u32>::new(), got, want.clone());
+                    }
+                    stats.joins += 3;
+                    rw.remove::<ChangeSet<Cat>>().expect("resource")
+                };
                 // finally consume the set that was actually built in this mode
                 let got: Vec<(u32, String)> = (&ents, cs).join().map(|(e, c)| (e.id(), c.s.clone())).collect();
                 chk!(fails, "changeset", format!("{} (&entities,cs).join of the built set", mode), seq_ids, Vec::<u32>::new(), got, want.clone());
